@@ -219,6 +219,9 @@ class Fns(object):
             e = future.exception()
             return sub_of(e if e is not None else future.result())
 
+        if p.get("kind") == "base":
+            return RetryPolicy()    # the documented base class: never retries
+
         if p.get("kind") == "exception":
             kw = {k: p[k] for k in ("max_attempts", "sleep", "exponent", "max_sleep") if k in p}
             if "exception_base" in p:
@@ -256,4 +259,6 @@ class Fns(object):
                 if p.get("raise_sleep") == attempt:
                     raise env.exc(("sleep_time", i, attempt))
                 return p.get("sleep", 0)
+        if p.get("inherit_sleep"):
+            del P.sleep_time      # only should_retry overridden: the base class's delay of 0 applies
         return P()
